@@ -331,6 +331,3 @@ def selftest():
     except Boom as x:
         assert x is e.raised
     assert is_prefix('ab', 'abc') and not is_prefix('b', 'abc') and is_prefix([], [1])
-    r = Runner(load_cases()[0])
-    a, exc = r.run(Env())
-    assert exc is None and a
